@@ -19,23 +19,47 @@ UNREACHED = {
 }
 
 
+# (module, attribute path) of the anchored functions; what a rewrite removed or
+# renamed is skipped and listed in MISSING (coverage is information only)
+TARGETS = [
+    ('MIP.mip.datacard', 'split'),
+    ('MIP.geom.composition', 'get_material_composition'),
+    ('t4_geom_convert.Kernel.Composition.CCompositionMCNP',
+     'CCompositionMCNP.__init__'),
+    ('t4_geom_convert.Kernel.FileHandlers.Parser.ParseMCNPComposition',
+     'parseMCNPComposition'),
+    ('t4_geom_convert.Kernel.Composition.CompositionConversionMCNPToT4',
+     'compositionConversionMCNPToT4'),
+    ('t4_geom_convert.Kernel.Composition.CompositionConversionMCNPToT4',
+     'str_fabs'),
+    ('t4_geom_convert.Kernel.Composition.ConvertIsotope', 'convert_isotope'),
+    ('t4_geom_convert.Kernel.Composition.ConstructCompositionT4',
+     'constructCompositionT4'),
+    ('t4_geom_convert.Kernel.Composition.ConstructCompositionT4',
+     'extract_isotopes_fractions'),
+    ('t4_geom_convert.Kernel.Composition.ConstructCompositionT4',
+     'rescale_fractions'),
+    ('t4_geom_convert.Kernel.FileHandlers.Writer.WriteT4Composition',
+     'writeT4Composition'),
+]
+MISSING = []
+
+
 def target_functions():
-    from MIP.mip import datacard
-    from MIP.geom.composition import get_material_composition
-    from t4_geom_convert.Kernel.Composition.CCompositionMCNP import \
-        CCompositionMCNP
-    from t4_geom_convert.Kernel.Composition import (
-        CompositionConversionMCNPToT4 as conv, ConvertIsotope,
-        ConstructCompositionT4 as cons)
-    from t4_geom_convert.Kernel.FileHandlers.Parser.ParseMCNPComposition \
-        import parseMCNPComposition
-    from t4_geom_convert.Kernel.FileHandlers.Writer import WriteT4Composition
-    return [datacard.split, get_material_composition,
-            CCompositionMCNP.__init__, parseMCNPComposition,
-            conv.compositionConversionMCNPToT4, conv.str_fabs,
-            ConvertIsotope.convert_isotope, cons.constructCompositionT4,
-            cons.extract_isotopes_fractions, cons.rescale_fractions,
-            WriteT4Composition.writeT4Composition]
+    import importlib
+    found = []
+    del MISSING[:]
+    for module, path in TARGETS:
+        try:
+            obj = importlib.import_module(module)
+            for part in path.split('.'):
+                obj = getattr(obj, part)
+            if not hasattr(getattr(obj, '__func__', obj), '__code__'):
+                raise AttributeError(path)
+            found.append(obj)
+        except Exception:           # pylint: disable=broad-except
+            MISSING.append(f'{module}.{path}')
+    return found
 
 
 def _codes(code, out):
